@@ -523,6 +523,8 @@ class Interp:
         return self.binop(n.op, self.ev(n.left, env), self.ev(n.right, env), n)
 
     def binop(self, op, a, b, node=None):
+        if isinstance(op, (ast.BitOr, ast.BitAnd)) and isinstance(a, bool) and isinstance(b, bool):
+            return (a or b) if isinstance(op, ast.BitOr) else (a and b)
         if isinstance(a, Vec) or isinstance(b, Vec):
             if isinstance(a, Vec) and isinstance(b, Vec):
                 if len(a) != len(b):
@@ -586,9 +588,13 @@ class Interp:
 
     def arr_op(self, opname, a, b, node):
         """element-wise operation producing a fresh array"""
-        if opname in ('BitOr', 'BitAnd') and isinstance(a, NDArr) and isinstance(b, NDArr) and a.pred is not None and b.pred is not None:
-            return NDArr(Store(f'fresh@{getattr(node, "lineno", 0)}', None), dtype='bool',
-                         pred=('or' if opname == 'BitOr' else 'and', a.pred, b.pred))
+        if opname in ('BitOr', 'BitAnd') and isinstance(a, NDArr) and isinstance(b, NDArr):
+            bv = None
+            if a.store.val is not None and b.store.val is not None and z3.is_bool(a.store.val) and z3.is_bool(b.store.val):
+                bv = z3.Or(a.store.val, b.store.val) if opname == 'BitOr' else z3.And(a.store.val, b.store.val)
+            pr = ('or' if opname == 'BitOr' else 'and', a.pred, b.pred) if a.pred is not None and b.pred is not None else None
+            if bv is not None or pr is not None:
+                return taint(NDArr(Store(f'fresh@{getattr(node, "lineno", 0)}', bv), dtype='bool', pred=pr), [a, b])
         va = a.store.val if isinstance(a, NDArr) else a
         vb = b.store.val if isinstance(b, NDArr) else b
         val = self.pointwise(opname, va, vb)
@@ -697,7 +703,18 @@ class Interp:
                     if flip:
                         opn = dict(Lt='Gt', Gt='Lt', LtE='GtE', GtE='LtE').get(opn, opn)
                     pred = ('cmpelem', opn, (other.elem_of[0].uid, other.elem_of[1]), arr.store.uid, repr(arr.view))
-                return NDArr(Store(f'fresh@{getattr(node, "lineno", 0)}', None), dtype='bool', pred=pred)
+                bval = None
+                if arr.store.val is not None and not isinstance(other, (Opaque, NDArr)) and (is_sym(other) or isinstance(other, (int, float))) \
+                        and not (isinstance(other, float) and (other != other or abs(other) == float('inf'))):
+                    try:
+                        x_, y_ = num_pair(arr.store.val, other)
+                        if flip:
+                            x_, y_ = y_, x_
+                        bval = {ast.Eq: lambda: x_ == y_, ast.NotEq: lambda: x_ != y_, ast.Lt: lambda: x_ < y_, ast.LtE: lambda: x_ <= y_,
+                                ast.Gt: lambda: x_ > y_, ast.GtE: lambda: x_ >= y_}[type(op)]()
+                    except Exception:
+                        bval = None
+                return taint(NDArr(Store(f'fresh@{getattr(node, "lineno", 0)}', bval), dtype='bool', pred=pred), [a, b])
             return self.ctx.fresh_bool('cmp')
         if not is_sym(a) and not is_sym(b):
             try:
@@ -921,7 +938,10 @@ class Interp:
                 raise _Raise(ExcVal('IndexError'))
         if isinstance(v, NDArr):
             if isinstance(k, NDArr):
-                return NDArr(Store(f'fresh@{getattr(node, "lineno", 0)}', None))      # advanced indexing copies
+                # advanced (boolean-mask) indexing copies; the generic element keeps its value, the mask is remembered
+                r_ = NDArr(Store(f'fresh@{getattr(node, "lineno", 0)}', v.store.val if k.dtype == 'bool' else None))
+                r_.mask_of = (v, k)
+                return taint(r_, [v, k])
             if isinstance(k, tuple) and any(isinstance(x, (slice, type(Ellipsis))) or x is None for x in k):
                 return NDArr(v.store, view=('index', k, v.view), dtype=v.dtype)
             o = Opaque(f'{v.store.origin}[{k}]')
@@ -948,7 +968,8 @@ class Interp:
             return Opaque(f'{v.tag}[]', [v])
         if isinstance(v, LibFn):
             if v.name.endswith(('.r_', '.c_')):
-                return NDArr(Store(f'fresh@{getattr(node, "lineno", 0)}', None))     # np.r_[...] builds a new array
+                # np.r_[...] builds a new array from its items
+                return taint(NDArr(Store(f'fresh@{getattr(node, "lineno", 0)}', None)), list(k) if isinstance(k, tuple) else [k])
             return Opaque(f'{v.name}[]')
         raise Unsupported(f'subscript of {type(v).__name__}')
 
